@@ -2,6 +2,7 @@ mod mathgen;
 mod colors;
 mod macro_cases;
 mod macrotick;
+mod polygen;
 mod filegen;
 mod geomops;
 mod mathops;
@@ -35,6 +36,7 @@ fn main() {
             geomops::emit(seed, n, lo, hi)
         }
         "geomops" => for o in geomops::OPS { println!("{} {}", o.0, o.1); },
+        "tri" => polygen::emit_tri(seed, n, a.get(4).and_then(|s| s.parse().ok()).unwrap_or(40)),
         "mathone" => {
             let op: i64 = a[2].parse().unwrap();
             let args: Vec<f64> = a[3..].iter().map(|s| s.parse().unwrap()).collect();
